@@ -343,7 +343,9 @@ def configs_for(prop: str, tier: str) -> List[Dict[str, Any]]:
         return sorted({0, 1, w // 2, w - 1}) if quick else list(range(w))
     if prop == 'C01':
         for w in (8, 16, 32, 64):
-            for off in offs(w):
+            # w=32 unaligned flat ops are the one place where single queries run into minutes (and answered `unknown` twice on a
+            # loaded / slower machine): quick keeps the aligned w=32 op, unaligned ops are covered at w = 8, 16, 64; thorough has all
+            for off in ((0,) if quick and w == 32 else offs(w)):
                 cfgs.append({'w': w, 'off': off, 'loop': 'run_flat_loop', 'mode': 'flat'})
         for w in (8, 16):
             for off in offs(w, quick):
@@ -426,7 +428,7 @@ def run(report: Report, tier: str, only: Optional[str] = None, prop: str = 'C01'
         'arbitrary) of run_flat_loop / run_generic_loop / run_measured_loop on a symbolic Memory: 2 symbolic disjoint sorted segments, '
         'arbitrary word content; flat: flat_count = end of the last segment <= 2^22; hybrid: window edge inside a segment; paged: pages '
         'materialised on demand (at w >= 32 the op\'s page index is a configuration, its offset in the page symbolic)')
-    report.bounds['native_ip_bit_offsets'] = 'quick: {0, 1, w/2, w-1} (or {0,1}); thorough: every bit offset 0..w-1 for the flat loop'
+    report.bounds['native_ip_bit_offsets'] = 'quick: {0, 1, w/2, w-1} (or {0,1}; at w=32 the flat loop runs offset 0 only); thorough: every bit offset 0..w-1 for the flat loop'
     report.outside += ['compiler correctness between clang-14 IR and the shipped gcc build', 'the default: clone for unsupported widths',
                        'segments_sorted == 0 (the lazy qsort on the first validity query)', 'the hash-table walk of mem_get_page '
                        '(replaced by its contract)', 'more than 2 segments in the op-step harnesses', 'unaligned ops in paged mode at w=64 (solver does not finish; covered at w=32 paged and w=64 flat)']
